@@ -46,6 +46,8 @@ class Folder:
         self.names = dict(names or {})
         self.attrs = dict(attrs or {})
         self.decide = decide
+        #: repository functions that may be evaluated when called by bare name: name -> ast.FunctionDef (set by the caller)
+        self.funcs: Dict[str, ast.FunctionDef] = {}
 
     def fold(self, node: ast.AST):
         if isinstance(node, ast.Constant):
@@ -225,13 +227,51 @@ class Folder:
                         return [int(red(bool(t) for t in row)) for row in v]
                     return [int(red(bool(row[j]) for row in v)) for j in range(len(v[0]))]
                 raise Unfoldable("any/all over an axis")
+            if m in ("clip", "clamp", "log1p", "minimum", "maximum"):
+                fake = ast.Call(func=ast.Attribute(value=ast.Name(id="torch", ctx=ast.Load()), attr=m, ctx=ast.Load()), args=[node.func.value] + list(node.args), keywords=list(node.keywords))
+                return self.fold(fake)
             if m in ("abs", "sum", "prod", "min", "max", "sign", "tanh", "sqrt", "exp", "argmin", "argmax", "amin", "amax", "all", "any", "numel", "dim", "conj", "mean"):
                 fake = ast.Call(func=ast.Attribute(value=ast.Name(id="torch", ctx=ast.Load()), attr=m, ctx=ast.Load()), args=[node.func.value] + list(node.args), keywords=list(node.keywords))
                 return self.fold(fake)
             raise Unfoldable(f"method {m}")
+        if isinstance(node, ast.Call) and isinstance(node.func, ast.Name) and node.func.id in self.funcs:
+            from .frag import FragReturn, run_fragment
+
+            fd = self.funcs[node.func.id]
+            params = [a.arg for a in fd.args.args]
+            if len(node.args) > len(params) or node.keywords and any(k.arg not in params for k in node.keywords):
+                raise Unfoldable(f"call {node.func.id}: arguments do not bind")
+            env: Dict[str, Any] = {}
+            for p_, a in zip(params, node.args):
+                env[p_] = self.fold(a)
+            for k in node.keywords:
+                env[k.arg] = self.fold(k.value)
+            defaults = fd.args.defaults
+            for p_, d in zip(params[len(params) - len(defaults):], defaults):
+                if p_ not in env:
+                    env[p_] = self.fold(d)
+            if any(p_ not in env for p_ in params):
+                raise Unfoldable(f"call {node.func.id}: missing argument")
+            try:
+                run_fragment(fd.body, env, self.attrs, funcs={k: v for k, v in self.funcs.items() if k != node.func.id})
+            except FragReturn as r:
+                return r.value
+            raise Unfoldable(f"call {node.func.id}: no return value")
         if isinstance(node, ast.Call):
             nm = call_name(node) or ""
             short = nm.split(".")[-1]
+            if short in ("clip", "clamp") and node.args:
+                v = self.fold(node.args[0])
+                lo = self.fold(node.args[1]) if len(node.args) > 1 else next((self.fold(k.value) for k in node.keywords if k.arg == "min"), None)
+                hi = self.fold(node.args[2]) if len(node.args) > 2 else next((self.fold(k.value) for k in node.keywords if k.arg == "max"), None)
+                return _ew(lambda x: (min(hi, x) if hi is not None else x) if lo is None else max(lo, min(hi, x) if hi is not None else x), v)
+            if short in ("log1p", "expm1") and node.args:
+                try:
+                    return _ew(math.log1p if short == "log1p" else math.expm1, self.fold(node.args[0]))
+                except (ValueError, TypeError, OverflowError) as exc:
+                    raise Unfoldable(str(exc))
+            if short in ("minimum", "maximum") and len(node.args) == 2:
+                return _ew(min if short == "minimum" else max, self.fold(node.args[0]), self.fold(node.args[1]))
             if short == "conj" and node.args:
                 return _ew(lambda x: x.conjugate() if isinstance(x, complex) else x, self.fold(node.args[0]))
             if short in ("tanh", "arctanh", "atanh", "sign", "log2", "log") and node.args:
@@ -339,7 +379,7 @@ class Folder:
             if short in ("tensor", "as_tensor", "Tensor", "array", "float", "int") and node.args:
                 return self.fold(node.args[0])
             if short in ("cos", "sin", "sqrt", "exp", "abs") and node.args:
-                f = {"cos": math.cos, "sin": math.sin, "sqrt": math.sqrt, "exp": cmath.exp, "abs": abs}[short]
+                f = {"cos": math.cos, "sin": math.sin, "sqrt": math.sqrt, "exp": lambda x: cmath.exp(x) if isinstance(x, complex) else math.exp(x), "abs": abs}[short]
                 return _ew(f, self.fold(node.args[0]))
             if short == "complex" and len(node.args) == 2:
                 return _ew(lambda x, y: complex(x, y), self.fold(node.args[0]), self.fold(node.args[1]))
